@@ -100,7 +100,7 @@ theorem eq_writeContent (htab : Generated.C06.reservedEntrypoints = some reserve
     simp only [forgeOperation, ← hk, h1, h2, natToBE_one row.tag h3, Option.bind_eq_bind, Option.bind_some,
       eq_writeL htab row.layout c.fields hw, writeContent]
     rw [hk, hr]
-    cases writeL row.layout c.fields <;> simp
+    cases hwl : writeL row.layout c.fields <;> simp [hwl]
 
 theorem eq_writeContents (htab : Generated.C06.reservedEntrypoints = some reservedEntrypoints) (ht : TablesOK) :
     ∀ (cs : List Content), (∀ c ∈ cs, WFContent c = true) → forgeContents cs = writeContents cs
